@@ -64,9 +64,9 @@ def oracle(case):
     """the property's wording: row k = Euler/Heun iterate after k*s steps at time k*dts, rows with time < cutoff dropped"""
     T, dt, dts = Fraction(case["T"]), Fraction(case["dt"]), Fraction(case["dts"])
     s = dts / dt
-    m = T / dts
-    assert s.denominator == 1 and m.denominator == 1
-    s, m = int(s), int(m)
+    assert s.denominator == 1
+    s = int(s)
+    m = py_round(T / dts)          # "there are round(T/sampling_step_size) rows"
     fs, U = case["field"], [[Fraction(v) for v in u] for u in case["U"]]
     y = [Fraction(v) for v in case["y0"]]
     t0 = case["t0"]
@@ -103,11 +103,17 @@ def gen_case(rng, kind):
     quad = m * s <= 4
     fs = gen_field(rng, n, allow_quadratic=quad, n_inputs=n_inputs, allow_t=(kind == "unit"))
     steps = m * s
-    U = [[q2s(Fraction(rng.randint(-4, 4))) for _ in range(steps + 3)] for _ in range(n_inputs)]
-    cut_choices = [Fraction(0), Fraction(0), dts, dts * Fraction(3, 2), 2 * dts, T, T + 1]
+    U = [[q2s(Fraction(rng.randint(-4, 4))) for _ in range(steps + 8)] for _ in range(n_inputs)]
+    cut_choices = [Fraction(0), Fraction(0), dts, T, T + 1] + [dts * Fraction(k, 4) for k in range(0, 4 * m + 3)]
+    backend = "default"
+    if kind == "e2e" and rng.random() < 0.25:
+        backend = "jax"
+    Tq = T
+    if kind == "e2e" and rng.random() < 0.3:
+        Tq = T + dts * rng.choice([Fraction(1, 4), Fraction(-1, 4), Fraction(3, 8), Fraction(-3, 8)])   # T not a multiple of the sampling step
     return {"kind": kind, "method": method, "inplace": rng.random() < 0.6, "field": fs, "U": U,
             "t0": (rng.choice([0, 0, 0, 1, 3]) if kind == "unit" and not n_inputs else 0),
-            "T": q2s(T), "dt": q2s(dt), "dts": q2s(dts), "cutoff": q2s(rng.choice(cut_choices)),
+            "T": q2s(Tq), "dt": q2s(dt), "dts": q2s(dts), "cutoff": q2s(rng.choice(cut_choices)), "backend": backend,
             "y0": [q2s(dy(rng, -2, 2, 2)) for _ in range(n)], "sampling_none": (s == 1 and rng.random() < 0.5),
             "vectorize": rng.random() < 0.5}
 
@@ -188,11 +194,13 @@ def run_e2e(case):
             op = OperatorTemplate(name="op", equations=eqs, variables=variables, path=None)
             node = NodeTemplate(name="n", operators=[op], path=None)
             c = CircuitTemplate(name="c", nodes={"p": node}, edges=[])
-            steps = int(Fraction(case["T"]) / Fraction(case["dt"]))
+            steps = py_round(Fraction(case["T"]) / Fraction(case["dt"]))
             inputs = {f"p/op/u{j}": np.array([float(Fraction(v)) for v in u][:steps]) for j, u in enumerate(case["U"])}
             kw = dict(simulation_time=float(Fraction(case["T"])), step_size=float(Fraction(case["dt"])), solver=case["method"],
                       outputs={NAMES[i]: f"p/op/{NAMES[i]}" for i in range(n)}, float_precision="float64", verbose=False,
                       in_place=False, vectorize=case["vectorize"], cutoff=float(Fraction(case["cutoff"])), clear=True)
+            if case.get("backend", "default") != "default":
+                kw["backend"] = case["backend"]
             if inputs:
                 kw["inputs"] = inputs
             if not case["sampling_none"]:
@@ -222,6 +230,7 @@ def model_request(case, tables):
     if case["kind"] != "unit":
         r["cutoff"] = case["cutoff"]
         r["axis"] = "arange" if tables.get("timeAxisKind") == "arangeStep" else "linspace"
+        r["scheme"] = "scan" if case.get("backend") == "jax" else "loop"
     return r
 
 
@@ -233,6 +242,102 @@ def spec_out(case):
     return {"rows": [[q2s(t), [q2s(v) for v in row]] for t, row in zip(times, rows) if t >= cut]}, bits
 
 
+class _PoisonNP:
+    """numpy proxy for base_backend: np.empty returns NaN-filled arrays so that rows the solver never wrote are observable"""
+    def __init__(self, np_):
+        self._np = np_
+
+    def __getattr__(self, k):
+        return getattr(self._np, k)
+
+    def empty(self, *a, **kw):
+        arr = self._np.empty(*a, **kw)
+        if arr.dtype.kind == "f":
+            arr[...] = self._np.nan
+        return arr
+
+
+def float_grid(_):
+    """non-dyadic (T, dt, dts): floats where T/dt is not exact.  Observables: row count, no unwritten (NaN) row, time index ~ k*dts,
+    values ~ textbook Euler/Heun in float64 (1e-9 relative).  Unit level (poisoned np.empty) and end to end."""
+    import pyrates.backend.base.base_backend as bb
+    from pyrates.backend.base.base_backend import BaseBackend
+    from pyrates import OperatorTemplate, NodeTemplate, CircuitTemplate
+    bad, done = [], 0
+    orig = bb.np
+    bb.np = _PoisonNP(orig)
+    try:
+        for dt in (0.1, 0.2, 0.01, 0.3, 0.05):
+            for sfac in (1, 2, 5):
+                for m in (1, 2, 3, 6, 7, 9, 12):
+                    dts = dt * sfac
+                    T = m * dts
+                    for meth in ("euler", "heun"):
+                        def func(t, y):
+                            return np.array([-0.5 * y[0] + 0.25 * y[1], 0.5 * y[0] - 0.1 * y[1] + 0.01 * t])
+                        y = np.array([1.0, 2.0])
+                        try:
+                            rec = (BaseBackend._solve_euler if meth == "euler" else BaseBackend._solve_heun)(func, (), T, dt, dts, y.copy(), 0)
+                        except Exception as e:
+                            bad.append({"level": "unit", "T": T, "dt": dt, "dts": dts, "method": meth, "error": type(e).__name__})
+                            continue
+                        done += 1
+                        exp_rows = round(T / dts)
+                        ref, yy = [], np.array([1.0, 2.0])
+                        for i in range(round(T / dt)):
+                            if i % sfac == 0:
+                                ref.append(yy.copy())
+                            k1 = func(i, yy)
+                            if meth == "euler":
+                                yy = yy + dt * k1
+                            else:
+                                yy = yy + dt / 2 * (k1 + func(i, yy + dt * k1))
+                        ref = np.array(ref[:exp_rows])
+                        if rec.shape[0] != exp_rows or np.isnan(rec).any() or ref.shape != rec.shape or not np.allclose(rec, ref, rtol=1e-9, atol=1e-12):
+                            bad.append({"level": "unit", "T": T, "dt": dt, "dts": dts, "method": meth, "rows": int(rec.shape[0]), "expected_rows": exp_rows,
+                                        "nan_rows": [int(i) for i in np.where(np.isnan(rec).any(axis=1))[0]]})
+        # end to end: index and row count on non-dyadic grids
+        with warnings.catch_warnings():
+            warnings.simplefilter("ignore")
+            wd = tempfile.mkdtemp(prefix="c03g_")
+            cwd = os.getcwd()
+            os.chdir(wd)
+            try:
+                for (T, dt, dts) in [(0.7, 0.1, 0.1), (0.3, 0.1, None), (0.6, 0.2, 0.2), (1.4, 0.1, 0.2), (0.9, 0.3, 0.3), (2.1, 0.1, 0.7), (0.35, 0.05, 0.05)]:
+                    op = OperatorTemplate(name="op", equations=["x' = -0.5*x + 0.25*z", "z' = 0.5*x"], variables={"x": "output(1.0)", "z": "variable(2.0)"}, path=None)
+                    c = CircuitTemplate(name="c", nodes={"p": NodeTemplate(name="n", operators=[op], path=None)}, edges=[])
+                    kw = dict(simulation_time=T, step_size=dt, solver="euler", outputs={"x": "p/op/x", "z": "p/op/z"}, float_precision="float64",
+                              verbose=False, in_place=False)
+                    if dts:
+                        kw["sampling_step_size"] = dts
+                    st = dts or dt
+                    try:
+                        r = c.run(**kw)
+                    except Exception as e:
+                        bad.append({"level": "e2e", "T": T, "dt": dt, "dts": dts, "error": type(e).__name__})
+                        continue
+                    done += 1
+                    sf = round(st / dt)
+                    yy = np.array([1.0, 2.0])
+                    ref = []
+                    for i in range(round(T / dt)):
+                        if i % sf == 0:
+                            ref.append(yy.copy())
+                        yy = yy + dt * np.array([-0.5 * yy[0] + 0.25 * yy[1], 0.5 * yy[0]])
+                    ref = np.array(ref[:round(T / st)])
+                    vals = r[["x", "z"]].values if r.shape[1] == 2 else r.values
+                    if vals.shape != ref.shape or np.isnan(vals).any() or not np.allclose(vals, ref, rtol=1e-9) \
+                            or not np.allclose(r.index.values, np.arange(round(T / st)) * st, atol=1e-12):
+                        bad.append({"level": "e2e", "T": T, "dt": dt, "dts": dts, "shape": list(vals.shape), "expected_shape": list(ref.shape),
+                                    "index": r.index.values.tolist(), "nan": bool(np.isnan(vals).any())})
+            finally:
+                os.chdir(cwd)
+                shutil.rmtree(wd, ignore_errors=True)
+    finally:
+        bb.np = orig
+    return {"done": done, "bad": bad}
+
+
 def same(a, b):
     if "error" in a or "error" in b:
         return a.get("error") == b.get("error")
@@ -241,11 +346,21 @@ def same(a, b):
 
 def kf_single_row(case, impl):
     """run() with exactly one stored sample (T == sampling step): squeeze() collapses the time axis"""
-    return case["kind"] == "e2e" and Fraction(case["T"]) == Fraction(case["dts"]) and "error" in impl \
+    return case["kind"] == "e2e" and py_round(Fraction(case["T"]) / Fraction(case["dts"])) == 1 and "error" in impl \
         and impl["error"] in ("ValueError", "IndexError")
 
 
-KNOWN = {"C03-single-row": (kf_single_row, "run() raises instead of returning one row when T equals the sampling step (single stored sample)")}
+def kf_nonmultiple(case, impl):
+    """numpy backend, T not a multiple of the sampling step and more store events than round(T/dts) rows -> IndexError (loud)"""
+    T, dt, dts = Fraction(case["T"]), Fraction(case["dt"]), Fraction(case["dts"])
+    s = int(dts / dt)
+    steps, m = py_round(T / dt), py_round(T / dts)
+    return case["kind"] == "e2e" and case.get("backend", "default") == "default" and (T / dts).denominator != 1 \
+        and -(-steps // s) > m and impl.get("error") == "IndexError"
+
+
+KNOWN = {"C03-nonmultiple-T-indexerror": (kf_nonmultiple, "numpy backend raises IndexError instead of returning round(T/dts) rows when T is not a multiple of the sampling step and ceil(steps/store_step) > round(T/dts)"),
+         "C03-single-row": (kf_single_row, "run() raises instead of returning one row when T equals the sampling step (single stored sample)")}
 
 
 def explicit_t_probe(_):
@@ -350,7 +465,8 @@ def check(tier, seed, replay=None):
     active_kf = [f["id"] for f in C.load_known_findings() if f.get("property") == PID and f.get("status") == "known" and f["id"] in KNOWN]
     for c, im, mo, sp in zip(kept, impl, model, specs):
         steps = int(Fraction(c["T"]) / Fraction(c["dt"]))
-        rep.count(f"{c['kind']}-{c['method']}" + ("-inplace" if c["inplace"] and c["kind"] == "unit" else ""), json.dumps(c, sort_keys=True), steps >= 2)
+        rep.count(f"{c['kind']}-{c['method']}" + ("-inplace" if c["inplace"] and c["kind"] == "unit" else "") + ("-jax" if c.get("backend") == "jax" else "")
+                  + ("-Tnonmultiple" if (Fraction(c["T"]) / Fraction(c["dts"])).denominator != 1 else ""), json.dumps(c, sort_keys=True), steps >= 2)
         if "crash" in im:
             raise C.HarnessError("harness child crashed: " + str(im))
         if "error" in mo and mo["error"] not in ("IndexError", "ZeroDivisionError", "LengthMismatch"):
@@ -373,6 +489,15 @@ def check(tier, seed, replay=None):
     ns, sbad = smoke_adaptive(rng, 3 if tier == "quick" else 12) if not replay else (0, [])
     rep.cov["streams"]["adaptive_smoke_runs_not_part_of_proof"] = ns
     rep.cov["streams"]["adaptive_smoke_failures"] = len(sbad)
+    fg = C.run_forked(float_grid, [0], timeout=600)[0] if not replay else {"done": 0, "bad": []}
+    if "crash" in fg:
+        rep.notes.append("float-grid stream crashed: " + str(fg.get("crash")))
+        fg = {"done": 0, "bad": [{"crash": fg.get("crash")}]}
+    rep.count("float-grid (non-dyadic T, dt, dts; poisoned np.empty)", None, n=fg["done"])
+    rep.cov["streams"]["float_grid_runs"] = fg["done"]
+    rep.cov["streams"]["float_grid_failures"] = len(fg["bad"])
+    if fg["bad"]:
+        rep.violation("fixed-step run on a non-dyadic (T, dt, dts) grid: wrong number of rows, an unwritten (garbage) row, wrong index or wrong values", {"float_grid": fg["bad"][:5]})
     tbad = C.run_forked(explicit_t_probe, [0])[0] if not replay else []
     if isinstance(tbad, dict):      # the probe itself raised inside PyRates: not this probe's question
         rep.notes.append("explicit-t probe raised: " + str(tbad.get("crash")))
